@@ -132,6 +132,19 @@ func runFieldCase(r *Run, family string, c fieldCase, extraHooks map[string]hook
 			outs = append(outs, e.K(v))
 		}
 	}); msg != "" {
+		// does the real code refuse this (valid) configuration as well?
+		names, his, _, _, _ := engineInputsSafe(c, extraHooks)
+		env := map[string]*big.Int{}
+		for i, n := range names {
+			env[n] = new(big.Int).Mod(big.NewInt(int64(7+i)), new(big.Int).Add(his[i], big.NewInt(1)))
+		}
+		if ok, emsg := runCaseOnEngine(c, nil, names, env); !ok && strings.Contains(emsg, "panic") {
+			r.mu.Lock()
+			r.done = append(r.done, obResult{ob: &Ob{Name: c.name + "/definable", Family: family, Site: c.name}, res: smt.Result{Status: "concrete", Solver: "-"}, status: "violation",
+				viol: &Violation{Site: c.name, What: c.name + ": the real code panics for this (valid) parameterisation: " + short(msg, 160), Replay: map[string]any{"kind": "functional", "family": family, "case": c.name}, Outcome: "gnark test engine on the real code: " + short(emsg, 160)}})
+			r.mu.Unlock()
+			return nil
+		}
 		r.Infra("%s: panicked on the symbolic API: %s", c.name, short(msg, 300))
 		return nil
 	}
@@ -673,4 +686,10 @@ func extInvN(a [2]*big.Int) [2]*big.Int {
 	n.Sub(n, t.Mul(t, big.NewInt(7))).Mod(n, P)
 	ni := new(big.Int).ModInverse(n, P)
 	return [2]*big.Int{new(big.Int).Mod(new(big.Int).Mul(a[0], ni), P), new(big.Int).Mod(new(big.Int).Neg(new(big.Int).Mul(a[1], ni)), P)}
+}
+
+// engineInputsSafe: engineInputs for a case whose build may panic part-way (inputs created before
+// the panic are still reported).
+func engineInputsSafe(c fieldCase, hooks map[string]hookFn) (names []string, his []*big.Int, atoms map[string]*sym.Term, refs []*ref.N, err string) {
+	return engineInputs(c, hooks)
 }
